@@ -169,6 +169,26 @@ def build(ck, tier, seed, silent_services=None):
                 else:
                     steps.append({"op": "leave", "c": "c0"})
                 scs.append({"id": sid, "svc": "shared:%d" % port, "steps": steps, "ending": ending})
+    # ftp data connections: the peer opens the passive port (or has the server connect to its own), asks for a transfer and then stays silent or leaves on either
+    # connection (the transfer itself waits on the data connection, not on the control connection's idle timeout)
+    if "ftp" in keys:
+        for cmd in (b"STOR up.bin\r\n", b"APPE up.bin\r\n", b"RETR nosuch\r\n", b"LIST\r\n", b"NLST\r\n", b""):
+            for ending, mode in [(e, m) for e in ("both-silent", "ctrl-closes", "data-closes", "data-partial", "all-close") for m in ("pasvdial", "portaccept")]:
+                sid = len(scs)
+                ip = "10.%d.%d.%d" % (20 + sid // 60000, (sid // 250) % 240, 1 + sid % 250)
+                steps = [{"op": "open", "c": "c0", "laddr": "127.0.0.1:21", "raddr": "%s:3000" % ip}]
+                for b in (b"USER anonymous\r\n", b"PASS anonymous\r\n"):
+                    steps += [{"op": "send", "c": "c0", "hex": b.hex(), "cuts": [], "gap_ms": 1}, {"op": "sleep", "ms": 15}]
+                steps.append({"op": mode, "c": "c0", "d": "d0"})
+                if cmd:
+                    steps += [{"op": "send", "c": "c0", "hex": cmd.hex(), "cuts": [], "gap_ms": 1}, {"op": "sleep", "ms": 30}]
+                if ending == "data-partial":
+                    steps += [{"op": "send", "c": "d0", "hex": (b"partial-content" * 4).hex(), "cuts": [], "gap_ms": 1}, {"op": "sleep", "ms": 15}]
+                fin = {"both-silent": [("leave", "c0"), ("leave", "d0")], "data-partial": [("leave", "c0"), ("leave", "d0")],
+                       "ctrl-closes": [("close", "c0"), ("leave", "d0")], "data-closes": [("close", "d0"), ("leave", "c0")],
+                       "all-close": [("close", "d0"), ("close", "c0")]}[ending]
+                steps += [{"op": o, "c": c} for o, c in fin]
+                scs.append({"id": sid, "svc": "ftp", "steps": steps, "ending": "close" if ending == "all-close" else "silent"})
     # datagram services: many handlers of the same service object at once (state shared between them must be guarded)
     for key in [k for k in keys if P.GRAMMAR[k].get("udp")]:
         g = P.GRAMMAR[key]
